@@ -33,6 +33,8 @@ def setup(root):
             _MODULE_LOCK_NAMES[name] = 'rlock'
         elif val is threading.Lock or val is _thread.allocate_lock:
             _MODULE_LOCK_NAMES[name] = 'lock'
+        elif val is threading.Event:
+            _MODULE_LOCK_NAMES[name] = 'event'
 
     def tiny():
         c = m.LRU(max_size=1)
@@ -208,7 +210,9 @@ def make_cache(case, ctx, sched=None):
         # the lock seam: whatever factory the module bound to the name RLock is replaced by
         # the simulated lock of the same kind (a plain Lock stays non re-entrant)
         for name, kind in _MODULE_LOCK_NAMES.items():
-            if kind == 'lock':
+            if kind == 'event':
+                setattr(cu, name, lambda *a, **k: threadsim.SimEvent(sched))
+            elif kind == 'lock':
                 setattr(cu, name, lambda *a, **k: threadsim.SimLock(sched))
             else:
                 setattr(cu, name, lambda *a, **k: threadsim.SimRLock(sched))
